@@ -172,7 +172,10 @@ def jobs(tier):
         js.append(Job('fixed-point/style%d' % st, fixed_point,
                       [lambda k, style_i, flow_i, canonical, sort_keys, _s=st: style_i == _s and 0 <= k < NT and 0 <= flow_i <= 2],
                       budget=250, bounds='%d values x style %r x 3 flow styles x canonical x sort_keys' % (NT, STYLES[st])))
-    js.append(Job('anchors', anchors, [lambda k0, k1, k2, a0, a1, a2, b0, b1, b2: 0 <= k0 <= 1 and 0 <= k1 <= 1 and 0 <= k2 <= 1 and 0 <= a0 <= 3 and 0 <= a1 <= 3 and
-                                       0 <= a2 <= 3 and 0 <= b0 <= 3 and (b1 == 3 if q else 0 <= b1 <= 3) and (b2 == 3 if q else 0 <= b2 <= 3)],
-                  budget=250, bounds='list/dict graphs over 3 slots with arbitrary child pointers, dumped twice as 2-document streams'))
+    for a in range(4):
+        for k in range(2):
+            js.append(Job('anchors/k0=%d/a0=%d' % (k, a), anchors,
+                          [lambda k0, k1, k2, a0, a1, a2, b0, b1, b2, _a=a, _k=k: k0 == _k and 0 <= k1 <= 1 and 0 <= k2 <= 1 and a0 == _a and 0 <= a1 <= 3 and
+                           0 <= a2 <= 3 and 0 <= b0 <= 3 and (b1 == 3 if q else 0 <= b1 <= 3) and (b2 == 3 if q else 0 <= b2 <= 3)],
+                          budget=250, bounds='list/dict graphs over 3 slots with arbitrary child pointers (root kind %d, first pointer %d), dumped twice as 2-document streams' % (k, a)))
     return js
